@@ -103,6 +103,12 @@ def gen_cases(prop, seed):
             job = rng.choice(jobs)
             job['critical'], job['outcome'] = False, 'ret'
             cands = [job['id']]
+        if rng.random() < 0.25:
+            # the other way of raising: from the cancellation handler
+            pool = [n['id'] for n, _, _ in S.walk(top)
+                    if not S.is_sched(n) and not n['critical']]
+            return [make_case(top, knobs, {"switch": rng.choice(pool),
+                                           "switch_kind": "cleanup"})]
         return [make_case(top, knobs, {"switch": rng.choice(cands)})]
     cases = [make_case(top, knobs)]
     every = SWEEP_EVERY.get(prop)
@@ -358,7 +364,7 @@ NONTRIVIAL_KEYS = {
     'C13': ('stragglers_cancelled', 'shutdown_on:timeout',
             'shutdown_on:critical'),
     'C14': ('seen_scheduled_not_running', 'job_cancelled'),
-    'C06': ('judged_full', 'judged_reduced'),
+    'C06': ('judged_full', 'judged_reduced', 'judged_verdicts_only'),
 }
 
 
